@@ -223,6 +223,10 @@ def fixed_machines():
     ms.append(gen_machine(r, 'fx-2s-pmem', force=dict(packages=2, dies=1, nodes_per_die=1, extra=2, memless_p=0, offline='none', hybrid=False, zero_special=False)))
     ms.append(gen_machine(r, 'fx-2s-2d-2n-mixed', force=dict(packages=2, dies=2, nodes_per_die=2, threads=1, cores=2, extra=3, hybrid=False)))
     ms.append(gen_machine(r, 'fx-hybrid', force=dict(packages=1, dies=1, nodes_per_die=2, threads=2, cores=2, hybrid=True, offline='none', zero_special=False)))
+    ms.append(gen_machine(r, 'fx-2s-iso', force=dict(packages=2, dies=1, nodes_per_die=2, threads=2, cores=2, isolated=True, offline='none', hybrid=False,
+                                                    zero_special=False, dist='hier')))
+    for c in ms[-1]['cpus']:
+        c['isolated'] = c['id'] in (3, 6, 7, 12)
     ms.append(gen_machine(r, 'fx-4s-snc', force=dict(packages=4, dies=1, nodes_per_die=2, threads=2, cores=1, hybrid=False)))
     return ms
 
@@ -246,6 +250,19 @@ def gen_cfgs(rng, m, n):
     online = [c['id'] for c in m['cpus'] if c['online']]
     iso = [c['id'] for c in m['cpus'] if c['isolated']]
     cfgs = [(None, '750m'), (None, None)]
+    # deterministic edge cases of checkConstraints (whenever the machine allows them)
+    on_iso = [c for c in online if c in iso]
+    on_non = [c for c in online if c not in iso]
+    if len(on_iso) >= 2:
+        cfgs.append((None, 'cpuset:' + cpulist(on_iso[:2])))                  # two isolated CPUs: rejected
+    if on_iso:
+        cfgs.append((None, 'cpuset:%d' % on_iso[0]))                          # a single isolated CPU: accepted (excluded by the property)
+        if on_non:
+            cfgs.append((None, 'cpuset:' + cpulist([on_iso[0], on_non[0]])))  # mixed: rejected
+    if len(on_non) >= 2:
+        cfgs.append(('cpuset:' + cpulist(on_non[1:]), 'cpuset:%d' % on_non[0]))   # reserved outside allowed: rejected
+        cfgs.append(('cpuset:' + cpulist(on_non), str(len(on_non))))          # reserve everything
+        cfgs.append(('cpuset:' + cpulist(on_non), str(len(on_non) + 1)))      # one too many: rejected
     def subset(pool, lo=1):
         k = rng.randint(lo, max(lo, len(pool)))
         return sorted(rng.sample(pool, min(k, len(pool))))
